@@ -16,7 +16,7 @@ SPEC = dict(
          "ICE-CONTROLLING, ICE-CONTROLLED} x PRIORITY x USERNAME x {transaction id of the component's latest check, guessed id}, plus "
          "non-STUN payloads. The component's timers are parked and driven explicitly (private slots through the meta-object system), "
          "zero-delay transmissions are flushed behind a marker datagram, so no real time enters. Observation per operation, compared "
-         "with the Lean model: decode accepted, warnings (bad integrity / role conflict), Binding responses written (to whom, echoing "
+         "with the Lean model: decode accepted, warnings (bad / missing integrity, role conflict), Binding responses written (to whom, echoing "
          "which id), connectivity checks sent (to whom, its own k-th transaction, USE-CANDIDATE), 'ICE pair changed to state' lines, "
          "'ICE pair selected ... (priority)' line, connected() signals, isConnected(), datagramReceived payloads, sendDatagram "
          "destination. Explored: the defect witnesses; EVERY single datagram of a 108-symbol alphabet (148 thorough) from 8 base states "
@@ -47,8 +47,8 @@ SPEC = dict(
     assumptions=[
         "one local host transport per modelled component, no STUN/TURN server configured (the two-agent runs also use two local addresses)",
         "attacker = anyone who can send UDP datagrams to the component's port and read what is sent to its own address; it does not "
-        "know either session password. Transaction ids of the component's own checks are treated as guessable only where the component "
-        "itself sends them to the attacker (the take-over witness) or in sequences that say so explicitly ('latest id')",
+        "know either session password; sequences may nevertheless hand it the exact transaction id of the component's latest check "
+        "('latest id'), i.e. an on-path observer is covered for the no-effect claim",
         "application payloads that are themselves well-formed STUN messages (magic cookie + matching length) are demultiplexed as STUN by "
         "design (RFC 5245/7983); counted (stun_shaped_payload_not_delivered), not judged",
         "two agents configured with the SAME role never connect: requests are dropped with 'Role conflict' and RFC 5245 7.2.1.1 "
@@ -58,24 +58,25 @@ SPEC = dict(
         "modelled faithfully, theorem pair_priority_rfc is stated for the RFC range, theorem pair_priority_wraps_beyond_rfc_range documents it",
         "component ids 1..256 (RFC range); memory safety of the datagram path is sanitizer exploration, not a theorem",
     ],
-    level_text="Theorems, for every state and every history of the model: a STUN datagram carrying a MESSAGE-INTEGRITY that is not valid "
-               "under the key for its class (wrong key, other password, truncated) leaves the component state unchanged and is never "
-               "answered (unauthenticated_traffic_no_effect_partial, forged_datagram_dropped); histories of such datagrams have no effect "
-               "and erasing them from ANY history changes neither the final state nor any output except the bad-integrity warning "
-               "(forged_history_no_effect, forged_traffic_erasable); only valid-or-absent integrity can matter "
-               "(reaction_only_to_valid_or_absent_mi). The full statement is proved FALSE for today's code with explicit witnesses "
-               "(C15_defect_no_mi_accepted, _witness, C15_defect_unauthenticated_peer_connects: two integrity-less datagrams make the "
-               "component report connected to a stranger) and TRUE for the model variant with fixes/C15-require-mi.diff "
-               "(unauthenticated_traffic_no_effect_fixed). candidate_priority_rfc / advertised_priorities_rfc / pair_priority_rfc over "
-               "constants regenerated from the source. honest_pair_connects_partial + honest_pair_carries_datagrams: two model agents, "
-               "either role assignment, any component and addresses, lossless in-order schedule, both reach connected and carry payloads.",
+    level_text="Theorems, for every state and every history of the model: EVERY unauthenticated STUN datagram (no MESSAGE-INTEGRITY, "
+               "wrong key, the session's other password, truncated attribute; any class, source, user name, role attribute, "
+               "USE-CANDIDATE, transaction id) leaves the component state unchanged and is never answered "
+               "(unauthenticated_traffic_no_effect, unauthenticated_datagram_dropped); histories of such datagrams have no effect and "
+               "erasing them from ANY history changes neither the final state nor any output except the integrity warnings "
+               "(forged_history_no_effect, forged_traffic_erasable); only validly authenticated messages can matter "
+               "(reaction_only_to_valid_mi); the former two-packet take-over witness is inert (former_takeover_witness_is_inert). "
+               "candidate_priority_rfc / advertised_priorities_rfc / pair_priority_rfc over constants regenerated from the source. "
+               "honest_pair_connects_partial + honest_pair_carries_datagrams: two model agents, either role assignment, any component "
+               "and addresses, lossless in-order schedule, both reach connected and carry payloads.",
     level_note="Proved about the hand-written model; model-to-code tie is differential on a real component over loopback UDP (exhaustive "
                "single datagrams / depth 2-3, interleavings at every point of honest negotiations, sampled beyond). The safety half is "
-               "full-strength only for datagrams that carry some integrity attribute; the integrity-less case is a genuine defect "
-               "(known finding, fix diff provided, fixed-variant theorem proved). Liveness is proved for the lossless in-order schedule "
-               "with one host candidate each only; other schedules, several candidates and loss of first transmissions are timer-driven "
-               "run-time behaviour and are explored by the harness (proxy socket dropping every subset of first transmissions), not proved. "
-               "HMAC unforgeability and memory safety are assumptions / sanitizer exploration.",
+               "full strength since repo commit f41aa68 (before it, integrity-less messages were processed: findings "
+               "C15:binding-request-without-mi-processed / C15:binding-response-without-mi-accepted, now under 'fixed'; both oracle keys "
+               "and the old witness stay in the harness). Liveness is proved for the lossless in-order schedule with one host candidate "
+               "each only; other schedules, several candidates and loss of first transmissions are timer-driven run-time behaviour and "
+               "are explored by the harness (proxy socket dropping every subset of first transmissions; a missed deadline is retried "
+               "once with longer deadlines before it counts), not proved. HMAC unforgeability and memory safety are assumptions / "
+               "sanitizer exploration.",
     design_ref="5.15",
     technique="Lean 4 proofs over an abstract-datagram state machine + generated priority constants + model/implementation "
               "correspondence on real QXmppIceComponent objects over loopback UDP",
